@@ -313,13 +313,46 @@ def r4(ctx, fs):
             asg = [canon(m, env, subst=False) for m in walk(n['slots']['body']) if m.get('k') == 'BinaryOperator' and m.get('op') == '=']
             if ifs and canon(ifs[0]['slots']['cond'], env, subst=False) == ('<', 'bt_level', lv(l)) and asg == [('=', 'bt_level', lv(l))]:
                 okmax = True
+            # ... or the running maximum written with std::max, unconditionally
+            if not ifs and len(asg) == 1 and isinstance(asg[0][2], tuple) and asg[0][:2] == ('=', 'bt_level') and asg[0][2][:2] == ('call', 'std::max') and sorted(asg[0][2][2:], key=repr) == sorted(['bt_level', lv(l)], key=repr):
+                okmax = True
     rets = [canon(n['c'][0], env, subst=False) for n in f.nodes() if n.get('k') == 'ReturnStmt']
     prop = ('mcall', 'smt::sat_core::propagate', 'smt::theory::sat')
     want_rets = [('&&', ('mcall', 'smt::sat_core::new_clause', 'smt::theory::sat', 'smt::theory::cnfl'), prop), prop]
+    # decided on the paths: at root the conflict is posted as a clause and, when that succeeds, propagated (`return a && b`, or `if (!a) return false; ...
+    # return b`); below root it is analysed and then propagated; every path reports what the last call answered
+    NC = ('mcall', 'smt::sat_core::new_clause', 'smt::theory::sat', 'smt::theory::cnfl')
+    ROOT = ('mcall', 'smt::sat_core::root_level', 'smt::theory::sat')
+    ok_root = ok_below = True
+    seen_root = set()
+    for p in enum_paths(f.body):
+        if p.end != 'return':
+            ok_root = False
+            continue
+        lits = [(canon(c[1], env, subst=False), c[2]) for c in p.conds if c[0] == 'if']
+        root = next((pol for t, pol in lits if t == ROOT), None)
+        r = canon(p.endnode['c'][0], env, subst=False)
+        nc = next((pol for t, pol in lits if t == NC), None)
+        called = [m.get('callee_name') for st in p.stmts[:-1] if not st.get('as') for m in walk(st) if m.get('callee_name')]
+        if root is True:
+            if nc is None:
+                good = r == tuple([want_rets[0][0]] + sorted(want_rets[0][1:], key=repr))
+            elif nc is False:
+                good = r == 'false'
+            else:
+                good = r == prop
+            good = good and 'smt::theory::analyze_and_backjump' not in called
+            seen_root.add(nc)
+            ok_root = ok_root and good
+        elif root is False:
+            ok_below = ok_below and r == prop and 'smt::theory::analyze_and_backjump' in called
+        else:
+            ok_root = ok_below = False
+    ok_root = ok_root and (seen_root == {None} or seen_root == {True, False})
     facts = {
         'back-jump level = max level over the conflict': okmax and env.init_of('bt_level') == ('num', 0),
-        'root conflict posted as a clause, both results reported': sorted(map(repr, rets)) == sorted(map(repr, [tuple([want_rets[0][0]] + sorted(want_rets[0][1:], key=repr)), prop])),
-        'analysed below root': any(n.get('callee_name') == 'smt::theory::analyze_and_backjump' for n in f.nodes()),
+        'root conflict posted as a clause, both results reported': ok_root,
+        'analysed below root': ok_below and any(n.get('callee_name') == 'smt::theory::analyze_and_backjump' for n in f.nodes()),
     }
     for k, v in facts.items():
         ctx.instance(rid, [f.id, k], {'fact': k, 'holds': v, 'returns': [show(r) for r in rets]})
